@@ -21,6 +21,8 @@
 #include <shark/Models/Kernels/KernelHelpers.h>
 #include <shark/Models/Kernels/ModelKernel.h>
 #include <shark/Models/Kernels/PointSetKernel.h>
+#include <shark/Models/Kernels/KernelExpansion.h>
+#include <shark/Models/Kernels/EvalSkipMissingFeatures.h>
 #include <shark/Models/LinearModel.h>
 #include <shark/Algorithms/Trainers/NormalizeKernelUnitVariance.h>
 #include <shark/Data/Dataset.h>
@@ -302,6 +304,7 @@ template<class I> struct InputDeriv{
 	static bool supported(){ return false; }
 	template<class K, class B> static RealMatrix run(K const&, B const&, B const&, RealMatrix const&, State const&){ return RealMatrix(); }
 	template<class P> static void perturb(P&, std::size_t, double){}
+	template<class K, class B> static std::string stale(K const&, B const&, B const&, RealMatrix const&, State const&, RealMatrix const&){ return ""; }
 };
 template<> struct InputDeriv<RealVector>{
 	static bool supported(){ return true; }
@@ -309,6 +312,16 @@ template<> struct InputDeriv<RealVector>{
 		RealMatrix g; k.weightedInputDerivative(b1, b2, C, st, g); return g;
 	}
 	static void perturb(RealVector& x, std::size_t t, double h){ x(t) += h; }
+	template<class K, class B> static std::string stale(K const& k, B const& b1, B const& b2, RealMatrix const& C, State const& st, RealMatrix const& fresh){
+		RealMatrix g(fresh.size1(), fresh.size2(), 3.25);
+		k.weightedInputDerivative(b1, b2, C, st, g);
+		if(g.size1() != fresh.size1() || g.size2() != fresh.size2()) return " !oracle stale-output-input shape";
+		for(std::size_t i = 0; i != g.size1(); ++i) for(std::size_t j = 0; j != g.size2(); ++j)
+			if(!(g(i,j) == fresh(i,j) || (std::isnan(g(i,j)) && std::isnan(fresh(i,j))))){
+				std::ostringstream os; os << " !oracle stale-output-input (" << i << "," << j << ") fresh=" << fresh(i,j) << " reused=" << g(i,j); return os.str();
+			}
+		return "";
+	}
 };
 
 // one session = current kernel + current points of input type I
@@ -507,6 +520,20 @@ struct Session{
 			s += C(i,j) * k->eval(p1[i], pts[c+j]);
 		return s;
 	}
+	// the result objects of the derivative calls are re-used by callers (calculateKernelMatrixParameterDerivative keeps ONE
+	// blockGradient for all blocks): a call into an output object that already holds values of the right size must
+	// return what a call into a fresh object returns
+	template<class B>
+	std::string staleParam(B const& b1, B const& b2, RealMatrix const& C, State const& st, RealVector const& fresh) const{
+		RealVector g(fresh.size(), 3.25);
+		k->weightedParameterDerivative(b1, b2, C, st, g);
+		if(g.size() != fresh.size()) return " !oracle stale-output-param size";
+		for(std::size_t i = 0; i != g.size(); ++i)
+			if(!(g(i) == fresh(i) || (std::isnan(g(i)) && std::isnan(fresh(i))))){
+				std::ostringstream os; os << " !oracle stale-output-param p=" << i << " fresh=" << fresh(i) << " reused=" << g(i); return os.str();
+			}
+		return "";
+	}
 	std::string deriv(std::vector<std::string> const& t) const{
 		std::vector<std::size_t> a;
 		std::vector<std::string> head(t.begin(), t.begin() + std::min<std::size_t>(t.size(), 5));
@@ -523,11 +550,21 @@ struct Session{
 			RealVector g; k->weightedParameterDerivative(b1, b2, C, *st, g);
 			std::string out = "g=";
 			for(std::size_t i = 0; i != g.size(); ++i){ if(i) out += ","; out += val(g(i)); }
-			return out;
+			return out + staleParam(b1, b2, C, *st, g);
 		}
 		if(op == "ideriv"){
 			if(!k->hasFirstInputDerivative() || !InputDeriv<I>::supported()) return "unsupported";
-			return showMat(InputDeriv<I>::run(*k, b1, b2, C, *st));
+			RealMatrix G = InputDeriv<I>::run(*k, b1, b2, C, *st);
+			return showMat(G) + InputDeriv<I>::stale(*k, b1, b2, C, *st, G);
+		}
+		if(op == "stale"){
+			// both derivative calls into output objects that already hold values (see staleParam)
+			std::string out = "ok";
+			if(k->hasFirstParameterDerivative()){ RealVector g; k->weightedParameterDerivative(b1, b2, C, *st, g); out += staleParam(b1, b2, C, *st, g); }
+			if(out == "ok" && k->hasFirstInputDerivative() && InputDeriv<I>::supported()){
+				RealMatrix G = InputDeriv<I>::run(*k, b1, b2, C, *st); out += InputDeriv<I>::stale(*k, b1, b2, C, *st, G);
+			}
+			return out;
 		}
 		// dcheck: both derivative calls against central finite differences of the weighted sum of
 		// single evaluations (numerical oracle on the real code; tolerance 2e-5 relative)
@@ -570,12 +607,12 @@ struct Session{
 	// op `gderiv s1 s2 ..`: calculateKernelMatrixParameterDerivative over the dataset batched as given, with a fixed
 	// symmetric weight matrix, against ONE weightedParameterDerivative call on the unbatched data (which dcheck ties
 	// to finite differences): the Gram-level derivative must not depend on the batching.  Oracle only (1e-9 relative).
-	std::string gramDeriv(std::vector<std::size_t> const& sizes) const{
+	std::string gramDeriv(std::vector<std::size_t> const& sizes, bool print = false) const{
 		std::size_t n = 0; for(std::size_t q: sizes){ if(q == 0) return "bad-op"; n += q; }
 		if(n > pts.size() || n == 0) return "bad-op";
-		if(!k->hasFirstParameterDerivative()) return "ok";
+		if(!k->hasFirstParameterDerivative()) return print ? "unsupported" : "ok";
 		RealMatrix W(n,n);
-		for(std::size_t i = 0; i != n; ++i) for(std::size_t j = 0; j != n; ++j) W(i,j) = (double)(((i+1)*(j+1)*7 + (i+j)*3) % 5) - 2;
+		for(std::size_t i = 0; i != n; ++i) for(std::size_t j = 0; j != n; ++j) W(i,j) = (double)(((i+1)*(j+1)*7 + (i+j)*3 + 1) % 5) - 2;   // symmetric, no zero row
 		Data<I> d = dataset(0, sizes);
 		RealVector g = calculateKernelMatrixParameterDerivative(*k, d, W);
 		typename Batch<I>::type all = batch(0, n);
@@ -583,6 +620,7 @@ struct Session{
 		RealMatrix M; k->eval(all, all, M, *st);
 		RealVector ref; k->weightedParameterDerivative(all, all, W, *st, ref);
 		std::string out = "ok";
+		if(print){ out = "g="; for(std::size_t p = 0; p != g.size(); ++p){ if(p) out += ","; out += val(g(p)); } }
 		if(g.size() != k->numberOfParameters() || ref.size() != g.size()) return out + " !oracle gram-gradient-size";
 		double scale = 1; for(std::size_t p = 0; p != g.size(); ++p) if(std::isfinite(ref(p))) scale = std::max(scale, std::fabs(ref(p)));
 		for(std::size_t p = 0; p != g.size(); ++p)
@@ -604,16 +642,16 @@ struct Session{
 			out = op == "fdistb" ? fdistBlock(a[0], a[1], a[2], a[3]) : block(a[0], a[1], a[2], a[3], op == "sblock"); return true;
 		}
 		if(op == "flags"){ out = t.size() == 1 ? flags() : "bad-op"; return true; }
-		if(op == "gderiv"){
+		if(op == "gderiv" || op == "gderivx"){
 			if(!vh::allNat(t, 1, a) || a.empty()){ out = "bad-op"; return true; }
-			out = gramDeriv(a); return true;
+			out = gramDeriv(a, op == "gderivx"); return true;
 		}
 		if(op == "gram"){
 			double reg;
 			if(t.size() < 3 || !parseVal(t[1], reg) || !vh::allNat(t, 2, a)){ out = "bad-op"; return true; }
 			out = gram(reg, a); return true;
 		}
-		if(op == "pderiv" || op == "ideriv" || op == "dcheck"){ out = deriv(t); return true; }
+		if(op == "pderiv" || op == "ideriv" || op == "dcheck" || op == "stale"){ out = deriv(t); return true; }
 		if(op == "mixed"){
 			if(!vh::allNat(t, 1, a) || a.size() < 3){ out = "bad-op"; return true; }
 			std::size_t nb1 = a[0]; a.erase(a.begin());
@@ -648,6 +686,81 @@ template<> struct PointSets<RealVector>{
 	}
 };
 
+// evalSkipMissingFeatures needs element access on the input type: dense only
+template<class I> struct SkipMissing{
+	static std::string run(Session<I> const&, std::size_t, std::size_t, std::size_t, std::size_t, std::size_t){ return "unsupported"; }
+};
+template<> struct SkipMissing<RealVector>{
+	static RealVector filtered(RealVector const& a, std::vector<bool> const& keep){
+		std::size_t n = 0; for(bool b: keep) n += b;
+		RealVector r(n); std::size_t p = 0;
+		for(std::size_t t = 0; t != a.size(); ++t) if(keep[t]) r(p++) = a(t);
+		return r;
+	}
+	// op `skip i j ma mb mm`: bit t of ma / mb / mm set = feature t of x_i / x_j / the missingness vector is NaN
+	static std::string run(Session<RealVector> const& s, std::size_t i, std::size_t j, std::size_t ma, std::size_t mb, std::size_t mm){
+		if(i >= s.pts.size() || j >= s.pts.size()) return "bad-op";
+		RealVector a = s.pts[i], b = s.pts[j], m(a.size(), 0.0);
+		double nan = std::numeric_limits<double>::quiet_NaN();
+		std::vector<bool> keep3(a.size()), keep4(a.size());
+		for(std::size_t t = 0; t != a.size(); ++t){
+			if(ma >> t & 1) a(t) = nan;
+			if(mb >> t & 1) b(t) = nan;
+			if(mm >> t & 1) m(t) = nan;
+			keep3[t] = !(ma >> t & 1) && !(mb >> t & 1); keep4[t] = keep3[t] && !(mm >> t & 1);
+		}
+		if(!s.k->supportsVariableInputSize()){
+			// the function must refuse kernels whose parameters are tied to the input dimension
+			try{ evalSkipMissingFeatures(*s.k, a, b); }catch(std::exception const&){ return "unsupported"; }
+			return "unsupported !oracle skip-accepts-fixed-size-kernel";
+		}
+		double v3 = evalSkipMissingFeatures(*s.k, a, b), v4 = evalSkipMissingFeatures(*s.k, a, b, m);
+		std::string out = val(v3) + " " + val(v4);
+		// independent oracle: the kernel on the vectors of the features present in both inputs
+		RealVector fa3 = filtered(a, keep3), fb3 = filtered(b, keep3), fa4 = filtered(a, keep4), fb4 = filtered(b, keep4);
+		double r3 = s.k->eval(fa3, fb3), r4 = s.k->eval(fa4, fb4);
+		if(!s.close(v3, r3)) out += " !oracle skip-missing-3 expected " + val(r3);
+		if(!s.close(v4, r4)) out += " !oracle skip-missing-4 expected " + val(r4);
+		double w3 = evalSkipMissingFeatures(*s.k, b, a), w4 = evalSkipMissingFeatures(*s.k, b, a, m);
+		if(!s.close(v3, w3) || !s.close(v4, w4)) out += " !oracle skip-missing-asymmetric";
+		return out;
+	}
+};
+
+// op `kexp nout off nb s1..snb alpha(n*nout) [b(nout)]`: a KernelExpansion over the first n points (basis batched as
+// given), then `kx a b` evaluates it on the batch [a,b).  Oracle: f(x)_o = b_o + sum_n alpha(n,o) k(x_n, x) from single
+// evaluations (bitwise for exact kernels, 1e-12 relative otherwise: the sum is a BLAS product).
+template<class I>
+std::string kexpSetup(Session<I> const& s, std::vector<std::string> const& t, boost::shared_ptr<KernelExpansion<I> >& ke){
+	std::size_t nout, off, nb;
+	if(t.size() < 4 || !parseNat(t[1], nout) || !parseNat(t[2], off) || !parseNat(t[3], nb) || nout == 0 || off > 1 || nb == 0 || t.size() < 4 + nb) return "bad-op";
+	std::vector<std::size_t> sizes(nb); std::size_t n = 0;
+	for(std::size_t i = 0; i != nb; ++i){ if(!parseNat(t[4+i], sizes[i]) || sizes[i] == 0) return "bad-op"; n += sizes[i]; }
+	if(n > s.pts.size() || t.size() != 4 + nb + n*nout + off*nout) return "bad-op";
+	ke.reset(new KernelExpansion<I>(s.k, s.dataset(0, sizes), off == 1, nout));
+	std::size_t p = 4 + nb;
+	for(std::size_t i = 0; i != n; ++i) for(std::size_t o = 0; o != nout; ++o){ double v; if(!parseVal(t[p++], v)) return "bad-op"; ke->alpha(i, o) = v; }
+	for(std::size_t o = 0; o != off*nout; ++o){ double v; if(!parseVal(t[p++], v)) return "bad-op"; ke->offset(o) = v; }
+	std::ostringstream os; os << "ok " << n << " " << nout;
+	if(ke->numberOfParameters() != n*nout + off*nout || ke->parameterVector().size() != ke->numberOfParameters()) os << " !oracle kexp-parameter-count";
+	return os.str();
+}
+template<class I>
+std::string kexpEvalOp(Session<I> const& s, KernelExpansion<I> const& ke, std::size_t a, std::size_t b){
+	if(!(a < b && b <= s.pts.size())) return "bad-op";
+	RealMatrix out = ke(s.batch(a, b));
+	std::string res = showMat(out);
+	std::size_t n = ke.alpha().size1(), nout = ke.alpha().size2();
+	if(out.size1() != b - a || out.size2() != nout) return res + " !oracle kexp-shape";
+	for(std::size_t p = 0; p != b - a; ++p) for(std::size_t o = 0; o != nout; ++o){
+		double ref = ke.hasOffset() ? ke.offset(o) : 0.0, scale = std::fabs(ref);
+		for(std::size_t i = 0; i != n; ++i){ double v = ke.alpha(i, o) * s.k->eval(s.pts[i], s.pts[a+p]); ref += v; scale += std::fabs(v); }
+		bool ok = out(p,o) == ref || std::fabs(out(p,o) - ref) <= 1e-12*(scale + 1);   // the sum is a BLAS product: order-dependent rounding
+		if(!ok){ std::ostringstream os; os << " !oracle kexp-vs-definition (" << p << "," << o << ") got=" << val(out(p,o)) << " definition=" << val(ref); return res + os.str(); }
+	}
+	return res;
+}
+
 // op `unitvar s1 s2 ..`: the library's own user of ScaledKernel::setFactor.  A ScaledKernel is constructed
 // with the default factor over the current kernel, NormalizeKernelUnitVariance::train rescales it on the
 // current points (batched as given); afterwards everything the rescaled object claims must hold
@@ -680,6 +793,7 @@ int run(){
 	Session<RealMatrix> ps;             // PointSetKernel over the current vector kernel
 	boost::shared_ptr<AbstractKernelFunction<RealMatrix> > psHolder;
 	boost::shared_ptr<DiscreteKernel> disc;
+	boost::shared_ptr<KernelExpansion<I> > kexp;
 	bool discrete = false;
 	std::string line;
 	while(std::getline(std::cin, line)){
@@ -701,7 +815,7 @@ int run(){
 				}
 			}
 			else if(t[0] == "kern"){
-				ps.k = 0; psHolder.reset();
+				ps.k = 0; psHolder.reset(); kexp.reset();
 				delete builder; builder = new Builder<I>();
 				std::size_t p = 1;
 				vs.k = builder->parse(t, p);
@@ -718,7 +832,7 @@ int run(){
 				std::size_t n, d;
 				if(t.size() < 3 || !parseNat(t[1], n) || !parseNat(t[2], d) || t.size() != 3 + n*d) out = "bad-op";
 				else{
-					vs.pts.clear(); bool ok = true;
+					vs.pts.clear(); bool ok = true; kexp.reset();
 					vs.pts.resize(n);
 					for(std::size_t i = 0; i != n; ++i){
 						std::vector<double> v(d);
@@ -765,6 +879,15 @@ int run(){
 				out = os.str();
 				if(vs.k->parameterVector().size() != vs.k->numberOfParameters()) out += " !oracle parameter-vector-size";
 			}
+			else if(vs.k && t[0] == "kexp") out = kexpSetup(vs, t, kexp);
+			else if(vs.k && t[0] == "kx"){
+				std::vector<std::size_t> a;
+				if(!kexp || !vh::allNat(t, 1, a) || a.size() != 2) out = "bad-op"; else out = kexpEvalOp(vs, *kexp, a[0], a[1]);
+			}
+			else if(vs.k && t[0] == "skip"){
+				std::vector<std::size_t> a;
+				if(!vh::allNat(t, 1, a) || a.size() != 5) out = "bad-op"; else out = SkipMissing<I>::run(vs, a[0], a[1], a[2], a[3], a[4]);
+			}
 			else if(vs.k && t[0] == "unitvar"){
 				std::vector<std::size_t> a;
 				if(!vh::allNat(t, 1, a) || a.empty()) out = "bad-op"; else out = unitVar(vs, a);
@@ -780,8 +903,10 @@ int run(){
 	return 0;
 }
 
+#ifndef C05_NO_MAIN
 int main(int argc, char** argv){
 	std::string ty = argc > 1 ? argv[1] : "dense";
 	if(ty == "sparse") return run<CompressedRealVector>();
 	return run<RealVector>();
 }
+#endif
